@@ -24,11 +24,34 @@
 //!   every D), with every millisecond driven in the order of the real processing loop (blocking
 //!   predicate, event, tick - the order in which nothing but the event itself restarts the idle
 //!   count at a release) as well as in the order predicate-between-event-and-tick.
+//!
+//! Part F (`c18_rapid.rs`): RAPID-FIRE operation histories. The same reference model - operations
+//! applied in the order in which they are issued, whatever the spacing - judges histories whose
+//! operations follow each other 0, 1, 2 ... ticks apart: direct fake-key calls back to back, physical
+//! keys that press a virtual key when pressed and release it when released rolled over each other
+//! (plus toggle / tap / inverse keys), and both mixed, on a key and on a layer-while-held virtual key.
+//! An operation is then issued while an earlier event of the same virtual key is still waiting in the
+//! queue (a press while the release is queued and the key still down, a release while the press is
+//! queued, ...); the state the keys end up in and the whole OS stream (with the layer activations
+//! sampled after every tick) must be what the operation sequence says.
+//!
+//! Part G (`c18_idlehold.rs`): on-idle while a hold-for-duration is PENDING. The idle time starts when
+//! the key held by hold-for-duration has been released, whether that virtual key carries a plain key,
+//! a layer-while-held action or a macro (for the last two nothing is down for the OS during the hold,
+//! so only the pending timed operation itself keeps kanata busy): `(multi (hold-for-duration L vh)
+//! (on-idle D tap-vkey v))` and the two actions on separate keys, L > D, L just above D and L < D,
+//! driven like the real loop, compared tick by tick with the combined model, and in plain form: the
+//! on-idle key never comes down while a hold-for-duration is pending.
 
 use crate::core::sim::{code_name, osc, render_hist, Ev, OutKind, Sim};
 use crate::core::{CaseOut, Check, Ctx};
 use serde_json::{json, Value};
 use std::collections::VecDeque;
+
+#[path = "c18_rapid.rs"]
+mod rapid;
+#[path = "c18_idlehold.rs"]
+mod idlehold;
 
 pub struct C18Check;
 pub static C18: C18Check = C18Check;
@@ -1451,6 +1474,12 @@ enum CaseKind {
     Backlog(usize, u64, u64),
     /// seeded longer scenarios; (chunk number, count)
     BacklogRandom(u64, u64),
+    /// part F: (index into rapid::CONFS_R, first history, one past the last)
+    Rapid(usize, u64, u64),
+    /// part F, seeded longer histories; (chunk number, count)
+    RapidRandom(u64, u64),
+    /// part G: (index into idlehold::configs_g(), first scenario, one past the last)
+    IdleHold(usize, u64, u64),
 }
 
 fn backlog_one(out: &mut CaseOut, c: &ConfB, steps: &[(u64, u8)], reported: &mut std::collections::BTreeSet<String>, may_sample: bool) {
@@ -1566,6 +1595,26 @@ fn layout(ctx: &Ctx) -> Vec<CaseKind> {
     for ch in 0..chunks {
         v.push(CaseKind::BacklogRandom(ch, per));
     }
+    for (ci, c) in rapid::CONFS_R.iter().enumerate() {
+        let tot = c.total(ctx);
+        let mut s = 0;
+        while s < tot {
+            v.push(CaseKind::Rapid(ci, s, (s + rapid::CHUNK_R).min(tot)));
+            s += rapid::CHUNK_R;
+        }
+    }
+    let (chunks, per) = rapid::random_chunks(ctx);
+    for ch in 0..chunks {
+        v.push(CaseKind::RapidRandom(ch, per));
+    }
+    for (ci, c) in idlehold::configs_g().iter().enumerate() {
+        let tot = c.total(ctx);
+        let mut s = 0;
+        while s < tot {
+            v.push(CaseKind::IdleHold(ci, s, (s + 512).min(tot)));
+            s += 512;
+        }
+    }
     v
 }
 
@@ -1582,6 +1631,9 @@ impl Check for C18Check {
             Some(CaseKind::Timed(ci, a, b)) => json!({"config": configs_t()[*ci].text(), "scenarios": format!("timed scenarios #{a}..#{b}")}),
             Some(CaseKind::Backlog(di, a, b)) => json!({"config": ConfB { d: B_DS[*di].0, d2: B_DS[*di].1, h: B_H }.text(), "scenarios": format!("queued hold-for-duration toggle scenarios #{a}..#{b}")}),
             Some(CaseKind::BacklogRandom(ch, n)) => json!({"kind": format!("{n} seeded queued hold-for-duration scenarios, chunk {ch}")}),
+            Some(CaseKind::Rapid(ci, a, b)) => json!({"config": rapid::CONFS_R[*ci].text(), "histories": format!("rapid-fire operation histories #{a}..#{b}")}),
+            Some(CaseKind::RapidRandom(ch, n)) => json!({"kind": format!("{n} seeded rapid-fire operation histories, chunk {ch}")}),
+            Some(CaseKind::IdleHold(ci, a, b)) => json!({"config": idlehold::configs_g()[*ci].text(), "scenarios": format!("on-idle with pending hold-for-duration scenarios #{a}..#{b}")}),
             _ => json!({"kind": "on-idle after a busy period"}),
         }
     }
@@ -1590,6 +1642,9 @@ impl Check for C18Check {
         let Some(kind) = layout(ctx).get(idx as usize).cloned() else { return out };
         match kind {
             CaseKind::BusyIdle => busy_idle_case(&mut out),
+            CaseKind::Rapid(ci, a, b) => rapid::run_enumerated(&mut out, ctx, ci, a, b),
+            CaseKind::RapidRandom(ch, n) => rapid::run_random(&mut out, ctx, ch, n),
+            CaseKind::IdleHold(ci, a, b) => idlehold::run_chunk(&mut out, ci, a, b),
             CaseKind::Backlog(di, a, b) => {
                 let c = ConfB { d: B_DS[di].0, d2: B_DS[di].1, h: B_H };
                 let mut reported: std::collections::BTreeSet<String> = Default::default();
@@ -1775,11 +1830,13 @@ impl Check for C18Check {
         out
     }
     fn rule(&self) -> String {
-        "case = (a) one configuration (virtual key sets {key}, {key,key}, {key,layer-while-held}, {key,layer,macro}; trigger path direct fake-key call / on-press / on-release / legacy on-press-fakekey / legacy on-release-fakekey / macro item / defseq completion) and a chunk of ALL operation histories up to N operations over every (virtual key, press|release|tap|toggle) pair (macro keys: tap only); quick N=5 (4 for the larger sets on the slower paths), thorough N=7 (6); every history is compared with the reference model after every operation (OS key state, active layer) and as a whole (OS key stream, plus a probe key press showing the layer through the OS stream); the model is the same for every path, so equal effect across paths is implied; (b) hold-for-duration with durations (key 0, key 1 on the SAME virtual key) in {(10,10),(40,40),(40,10),(10,40),(15,12)} and on-idle D=10 (second key: the same on-idle action / layer-while-held / XX / (on-release tap-vkey k2)), D=40 (same action; layer-while-held in loop order) and the legacy form (D=10), each on-idle configuration driven in two orders per millisecond: blocking predicate - event - tick (an iteration of the real processing loop) and event - blocking predicate - tick: a first activation followed by ALL sequences of up to 2 further taps (thorough: plus those with 3, complete or a fixed-stride sample of 250 000 per configuration) of the same key, the second key or a plain key, at every combination of distances (hold-for-duration: press-to-press 2, 3, x-2..x+2 for each duration x, L-S-1..L-S+1, 2L; on-idle: release-to-press 3, D-1..D+2, 2D+5) and hold lengths (hold-for-duration 1, 4; on-idle: first tap 1, D/2, further taps 1, 4, D/2, D-2 and 2D+3 - the last with OS repeat events every D/2 for keys that are not normal keys), plus for hold-for-duration the complete sweep: activation by key a, second activation by key b at EVERY distance 2..max(D)+3, optionally a third tap of any of the three keys at a distance around S, L, L-S; compared tick by tick with the model (hold-for-duration: up d[k] after the latest activation made by key k; on-idle: the idle count restarts at every input event - press, release, OS repeat - and while something is queued or an output key is down); (c) on-idle armed before a long macro: fires exactly once and not before D ticks after the macro's last output. (d) hold-for-duration whose own press is still waiting in the queue: (D on key 0, D on key 1) in {(1,1),(2,2),(3,3),(5,5),(5,2),(2,5)} with two keys carrying the action for one virtual key, a plain key and a tap-hold key (timeout 6); ALL toggle scenarios (each step presses the key if it is up, releases it if it is down) of up to 4 (quick) / 5 (thorough) steps over the 4 keys and the distances {0,1,2,7} to the previous event (0 = same millisecond, 7 = longer than every D and than the tap-hold timeout), plus seeded longer scenarios (4..10 steps, D in {1,2,3,4,5,8,12}, in half of them a second duration from {1,2,3,4,5,8,12,20} on the second key, tap-hold timeout in {4,6,15,30}, bursts of same-millisecond events); the virtual key must come down once per episode and go up again D after the latest activation was processed, compared tick by tick with the queue model (one queued event consumed per tick, none while the tap-hold is undecided or during the pause after its decision; the virtual key's press and release wait behind everything queued before them), and in plain form: every press of the virtual key is followed by its release. Non-trivial = history/scenario ran and was judged; distinct = (configuration, first four operations) / (configuration, events, re-arms, episodes, firings, re-arms that shorten the time left, idle restarts by release/repeat) / (configuration, events, same-millisecond events, episodes, re-arms, expiries before the press was processed, tap-hold outcomes).".into()
+        "case = (a) one configuration (virtual key sets {key}, {key,key}, {key,layer-while-held}, {key,layer,macro}; trigger path direct fake-key call / on-press / on-release / legacy on-press-fakekey / legacy on-release-fakekey / macro item / defseq completion) and a chunk of ALL operation histories up to N operations over every (virtual key, press|release|tap|toggle) pair (macro keys: tap only); quick N=5 (4 for the larger sets on the slower paths), thorough N=7 (6); every history is compared with the reference model after every operation (OS key state, active layer) and as a whole (OS key stream, plus a probe key press showing the layer through the OS stream); the model is the same for every path, so equal effect across paths is implied; (b) hold-for-duration with durations (key 0, key 1 on the SAME virtual key) in {(10,10),(40,40),(40,10),(10,40),(15,12)} and on-idle D=10 (second key: the same on-idle action / layer-while-held / XX / (on-release tap-vkey k2)), D=40 (same action; layer-while-held in loop order) and the legacy form (D=10), each on-idle configuration driven in two orders per millisecond: blocking predicate - event - tick (an iteration of the real processing loop) and event - blocking predicate - tick: a first activation followed by ALL sequences of up to 2 further taps (thorough: plus those with 3, complete or a fixed-stride sample of 250 000 per configuration) of the same key, the second key or a plain key, at every combination of distances (hold-for-duration: press-to-press 2, 3, x-2..x+2 for each duration x, L-S-1..L-S+1, 2L; on-idle: release-to-press 3, D-1..D+2, 2D+5) and hold lengths (hold-for-duration 1, 4; on-idle: first tap 1, D/2, further taps 1, 4, D/2, D-2 and 2D+3 - the last with OS repeat events every D/2 for keys that are not normal keys), plus for hold-for-duration the complete sweep: activation by key a, second activation by key b at EVERY distance 2..max(D)+3, optionally a third tap of any of the three keys at a distance around S, L, L-S; compared tick by tick with the model (hold-for-duration: up d[k] after the latest activation made by key k; on-idle: the idle count restarts at every input event - press, release, OS repeat - and while something is queued or an output key is down); (c) on-idle armed before a long macro: fires exactly once and not before D ticks after the macro's last output. (d) hold-for-duration whose own press is still waiting in the queue: (D on key 0, D on key 1) in {(1,1),(2,2),(3,3),(5,5),(5,2),(2,5)} with two keys carrying the action for one virtual key, a plain key and a tap-hold key (timeout 6); ALL toggle scenarios (each step presses the key if it is up, releases it if it is down) of up to 4 (quick) / 5 (thorough) steps over the 4 keys and the distances {0,1,2,7} to the previous event (0 = same millisecond, 7 = longer than every D and than the tap-hold timeout), plus seeded longer scenarios (4..10 steps, D in {1,2,3,4,5,8,12}, in half of them a second duration from {1,2,3,4,5,8,12,20} on the second key, tap-hold timeout in {4,6,15,30}, bursts of same-millisecond events); the virtual key must come down once per episode and go up again D after the latest activation was processed, compared tick by tick with the queue model (one queued event consumed per tick, none while the tap-hold is undecided or during the pause after its decision; the virtual key's press and release wait behind everything queued before them), and in plain form: every press of the virtual key is followed by its release. (e) rapid-fire operation histories, judged by the model of (a) (operations applied in the order issued, whatever the spacing; final state of every virtual key, the whole OS stream and the layer activations sampled after every tick, at order level): virtual key sets {key}, {layer-while-held}, {key,layer}; paths: direct fake-key calls (all four operations on every key), physical keys (one virtual key: two keys `(multi (on-press press-vkey v) (on-release release-vkey v))`, `(on-press toggle-vkey v)`, `(on-release tap-vkey v)`, `(multi (on-press release-vkey v) (on-release press-vkey v))`; two virtual keys: two such hold keys per virtual key, a key toggling one on press and the other on release, a key tapping one on press and the other on release) and mixed (two hold keys plus the direct operations); ALL histories of up to 4 (quick; 3 for direct calls on two virtual keys) / 5 (thorough; 4; beyond 600 000 per configuration a fixed-stride sample) steps, each step a physical key (pressed if up, released if down) or a direct operation, at the distances {0,1,2,5} (one virtual key, direct and physical) or {0,1,3} ticks to the previous step (0 = same millisecond), keys still down released one tick apart at the end; plus seeded histories of 5..10 steps with bursts of same-millisecond steps. (f) on-idle while a hold-for-duration is pending: keys `(multi (hold-for-duration L vh) (on-idle D tap-vkey k1))`, `(hold-for-duration L vh)`, a plain key (another key on the held layer) and `(on-idle D tap-vkey k1)`; vh carries a layer-while-held action, a macro or a plain key; (D,L) in {(10,25),(8,9),(20,7)} in loop order (predicate - event - tick) and (10,25) also with the predicate between event and tick; a first tap of any of the four keys followed by ALL sequences of up to 2 further taps (thorough: plus 3, complete or a fixed-stride sample of 60 000 per configuration) of the four keys at the release-to-press distances {2, D-1, D+1, L-D, L-1, L+1, L+D-1, L+D+2}; compared tick by tick with the combined model (the idle count does not run while a hold-for-duration is pending, i.e. from the activation until the queued release of the held key has been processed; hold-for-duration as in (b)), and in plain form: the on-idle key never comes down while a hold-for-duration is pending. Non-trivial = history/scenario ran and was judged; distinct = (configuration, first four operations) / (configuration, events, re-arms, episodes, firings, re-arms that shorten the time left, idle restarts by release/repeat) / (configuration, events, same-millisecond events, episodes, re-arms, expiries before the press was processed, tap-hold outcomes) / (rapid configuration, events, same-millisecond pairs, operations issued while an own event was queued, presses issued while the own release was queued, expected outputs) / (idle+hold configuration, events, episodes, re-arms, firings, firings delayed by the pending hold).".into()
     }
     fn assumptions(&self) -> Vec<String> {
         vec![
-            "operations are spaced so that each one has taken effect before the next (at least 4 ticks and until kanata is quiet); rapid-fire operations within one tick are not judged".into(),
+            "part (a): operations are spaced so that each one has taken effect before the next (at least 4 ticks and until kanata is quiet) and the state is judged after every operation; rapid-fire operations (0, 1, 2 ... ticks apart) are judged in part (e) by the same model - operations applied in the order in which they are issued: a direct call is issued at once, a physical key's operation in the tick that processes its press / release (one queued event per tick) - on the state every virtual key ends up in and on the whole stream at order level (intermediate states cannot be attributed to single operations there)".into(),
+            "part (e): virtual keys with a key or a layer-while-held action (a macro key has no state that a fast history could get wrong); at most 17 events are ever queued (keyberon's queue holds 32). toggle-vkey on the unchanged tree looks at the processed state, not at the events still queued (known finding C18:rapid:toggle-reads-state-before-own-queued-event:*, findings/C18-toggle-reads-state-before-queued-events.md): a history is put into that class only if a toggle was issued while the processed state of its virtual key differed from the state the operations issued so far lead to AND the complete observation (stream and final state) equals the reference model with exactly that reading of toggle; everything else is live".into(),
+            "part (f): a pending hold-for-duration means kanata is not idle (the guide: kanata is not idle while it 'is waiting for the timeout of actions'; upstream's is_idle says the same) - from the tick in which the activation is processed until the queued release of the held key has been processed; taps of the on-idle keys are held 1 tick, of the other keys 1 or 3 ticks; L >= 7 so that the macro of a macro-carrying virtual key has finished long before the hold ends; one input event per millisecond".into(),
             "a virtual key with a macro action is only tapped (a macro cannot be held; the guide's press/toggle wording has no meaning for it)".into(),
             "layer-while-held virtual keys are observed through Layout::current_layer after every operation and through a probe key in the OS stream at the end of each history".into(),
             "timed forms: processing discipline of DESIGN appendix A (one queued event per tick; virtual key events are queued behind pending physical events); hold-for-duration releases D ticks after the tick of the latest activation; on-idle fires in the tick in which D idle loop iterations have been counted, any input resets the count".into(),
@@ -1835,6 +1892,35 @@ impl Check for C18Check {
             ("hold_queued_rearms", 5_000),
             ("hold_queued_rearms_by_key_with_other_duration", 3_000),
             ("hold_queued_rearms_shortening_the_time_left", 1_500),
+            ("rapid_histories", 150_000),
+            ("rapid_histories_direct", 30_000),
+            ("rapid_histories_on-press+on-release", 80_000),
+            ("rapid_histories_mixed", 50_000),
+            ("rapid_histories_seeded", 4_000),
+            ("rapid_same_ms_event_pairs", 100_000),
+            ("rapid_rolls_between_two_hold_keys", 4_000),
+            ("rapid_ops_issued_while_own_event_queued", 200_000),
+            ("rapid_press_issued_while_own_release_queued", 15_000),
+            ("rapid_press_issued_while_own_release_queued_by_physical_key", 10_000),
+            ("rapid_press_issued_while_own_release_queued_direct_call", 4_000),
+            ("rapid_press_issued_while_own_release_queued_key_virtual_key", 8_000),
+            ("rapid_press_issued_while_own_release_queued_layer_virtual_key", 8_000),
+            ("rapid_release_issued_while_own_press_queued", 25_000),
+            ("rapid_tap_issued_while_own_event_queued", 30_000),
+            ("rapid_toggle_issued_while_own_event_queued", 15_000),
+            ("idle_hold_scenarios", 40_000),
+            ("idle_hold_scenarios_loop_order", 30_000),
+            ("idle_hold_scenarios_layer_virtual_key", 12_000),
+            ("idle_hold_scenarios_macro_virtual_key", 12_000),
+            ("idle_hold_scenarios_key_virtual_key", 12_000),
+            ("idle_hold_firings", 30_000),
+            ("idle_hold_rearms", 5_000),
+            ("idle_hold_count_held_back_only_by_pending_hold_layer_virtual_key", 100_000),
+            ("idle_hold_count_held_back_only_by_pending_hold_macro_virtual_key", 80_000),
+            ("idle_hold_firings_delayed_by_pending_hold_layer_virtual_key", 3_000),
+            ("idle_hold_firings_delayed_by_pending_hold_macro_virtual_key", 3_000),
+            ("idle_hold_scenarios_where_counting_through_the_hold_fires_early_layer_virtual_key", 3_000),
+            ("idle_hold_scenarios_where_counting_through_the_hold_fires_early_macro_virtual_key", 3_000),
         ]
     }
     fn exhaustive(&self, _ctx: &Ctx) -> bool {
